@@ -1,12 +1,15 @@
 import Holpy.C13.Wire
 import Holpy.C14.Model
 import Holpy.C13.ExportModel
+import Holpy.C13.RevertModel
 /-
 Line protocol, additions for the method-level model of C14 (everything else: Holpy/C13/Wire.lean):
   (cut STATE ID TH)                      -> (ok STATE) | (error KIND)     cut_method.apply
   (forward STATE ID RULE (ID ...) TH)    -> (ok STATE) | (error KIND)     add_line_before(id,1) + set_line
   (cases STATE ID RULE TH1 TH2 CONCL T|F T|F) -> (ok STATE) | (error KIND)
   (advertised ((ITEM T|F) ...))          -> (TH ...)
+  (intro STATE ID (ITEM ...))            -> (ok STATE) | (error KIND)     introduction.apply
+  (revert STATE ID FACT TH RA RI)        -> (ok STATE) | (error KIND)     revert_intro.apply (RA/RI: rule codes of assume/intros)
   (roundtrip STATE)                      -> (ok STATE) | (error KIND)     importLines [] (exportLines STATE)
   (import ((ID RULE (ID ...) TH) ...))   -> (ok STATE) | (error KIND)
 -/
@@ -28,6 +31,14 @@ def handle (line : String) : String :=
     match stateOf st, idOf i, r.toNat?, thOf t1, thOf t2, thOf c, b1.toBool?, b2.toBool? with
     | some s, some i, some r, some t1, some t2, some c, some b1, some b2 => resTo (casesM s i r t1 t2 c b1 b2)
     | _, _, _, _, _, _, _, _ => "bad-op"
+  | some (.list [.atom "revert", st, i, f, t, ra, ri]) =>
+    match stateOf st, idOf i, idOf f, thOf t, ra.toNat?, ri.toNat? with
+    | some s, some i, some f, some t, some ra, some ri => resTo (revertIntroM s i f t ra ri)
+    | _, _, _, _, _, _ => "bad-op"
+  | some (.list [.atom "intro", st, i, sub]) =>
+    match stateOf st, idOf i, stateOf sub with
+    | some s, some i, some sub => resTo (introM s i sub)
+    | _, _, _ => "bad-op"
   | some (.list [.atom "advertised", new]) =>
     match newOf new with
     | some new => toString (Sexp.list ((advertised new).map thTo))
